@@ -6,20 +6,25 @@
 (*          {"e":"GetEnd","res":"ok"|"refused","data":[bytes]}   after get() returned/threw *)
 (* start/end are private: TLC infers them (the compaction choice is the only branching). *)
 EXTENDS ReadBuffer, TLC, Json, IOUtils
-VARIABLE l
+CONSTANT Stats     \* TRUE: the counters of the statistics policy (ReadCountPolicy) are judged as well (extension check X06)
+VARIABLE l, st     \* st: <<numSourceReads, bytesReadFromSource, numBufferReads, bytesReadFromBuffer>> as documented in read_buffer.hpp
 Log == ndJsonDeserialize(IOEnv.TRACE)
 Ev == Log[l]
 TInit == /\ l = 1 /\ n = 0 /\ mem = <<>> /\ start = 0 /\ end = 0 /\ spos = 0 /\ consumed = 0
-         /\ pc = "idle" /\ want = 0 /\ reads = 0 /\ ret = <<>>
+         /\ pc = "idle" /\ want = 0 /\ reads = 0 /\ ret = <<>> /\ st = <<0, 0, 0, 0>>
 TNext == /\ l <= Len(Log) /\ l' = l + 1
-         /\ \/ Ev.e = "GetBegin" /\ \E sh \in {0, start} : GetBegin(Ev.len, sh)
-            \/ Ev.e = "ReadData" /\ ReadData(Ev.req, Ev.got)
+         /\ \/ Ev.e = "GetBegin" /\ (\E sh \in {0, start} : GetBegin(Ev.len, sh)) /\ UNCHANGED st
+            \* "how many times data was read from the source" / "how much data was read from the source so far"
+            \/ Ev.e = "ReadData" /\ ReadData(Ev.req, Ev.got) /\ st' = <<st[1] + 1, st[2] + Ev.got, st[3], st[4]>>
+            \* "how many times data was copied from the internal buffer into the outgoing buffer" / "how much data was copied"
             \/ /\ Ev.e = "GetEnd" /\ GetEnd
                /\ Ev.res = (IF pc = "refused" THEN "refused" ELSE "ok")
                /\ ret' = Ev.data
+               /\ st' = IF pc # "refused" /\ Len(Ev.data) > 0 THEN <<st[1], st[2], st[3] + 1, st[4] + Len(Ev.data)>> ELSE st
+               /\ Stats => Ev.st = st'
             \/ /\ Ev.e = "Reset" /\ n' = Ev.N /\ mem' = [i \in 0..Ev.N-1 |-> -1]
                /\ start' = 0 /\ end' = 0 /\ spos' = 0 /\ consumed' = 0
-               /\ pc' = "idle" /\ want' = 0 /\ reads' = 0 /\ ret' = <<>>
-TSpec == TInit /\ [][TNext]_<<vars, l>>
+               /\ pc' = "idle" /\ want' = 0 /\ reads' = 0 /\ ret' = <<>> /\ st' = <<0, 0, 0, 0>>
+TSpec == TInit /\ [][TNext]_<<vars, l, st>>
 Accepted == TLCGet("stats").diameter = Len(Log) + 1
 =============================================================================
